@@ -211,6 +211,9 @@ class C15(object):
                 "T": T, "chunking": rnd.choice(["static", "static", "random"]), "cseed": rnd.getrandbits(32),
                 "strategy": rnd.choice(["random", "random", "pct", "rr", "rtc"]), "p_inv": rnd.choice([1, 2, 4, 16, 64]),
                 "quantum": rnd.choice([1, 2, 5]), "pct_d": rnd.choice([1, 2, 3]), "sseed": rnd.getrandbits(48),
+                "native_big": ({"n": rnd.choice([46341, 50000, 70001]), "edges": rnd.choice([30000, 90000]), "seed": rnd.getrandbits(32),
+                                "dtype": rnd.choice(["int32", "int32", "int64"])}
+                               if rnd.random() < (0.0015 if ctx.tier == "quick" else 0.0004) else None),
                 "native": rnd.random() < 0.04, "layout": layout, "shape2": shape2, "big_clean": big_clean,
                 "idx_dtype": rnd.choice(["int64", "int64", "int64", "int32", "uint32", "uint16", "uint64"]),
                 "merge_calls": [rnd.random() < 0.5 for _ in range(rnd.choice([0, 0, 1, 2]))],
@@ -387,7 +390,7 @@ class C15(object):
             for with_scale in desc.get("merge_calls", []):
                 sfk = lay(desc["scale"] if (with_scale and desc["scale"] is not None) else [1.0] * len(desc["omega"])) if with_scale else None
                 res["earlier"].append((None if sfk is None else np.array(sfk).ravel().tolist(),
-                                       {k: np.array(v) for k, v in tab.pk2dmerge(om, dy, scale_factor=sfk).items()}))
+                                       tab.pk2dmerge(om, dy, scale_factor=sfk)))     # kept as returned, looked at after the last call
             res["merged"] = {k: np.array(v) for k, v in tab.pk2dmerge(om, dy, scale_factor=sf).items()}
             res["pk2d"] = {k: np.array(v) for k, v in tab.pk2d(om, dy, scale_factor=sf).items()}
 
@@ -512,6 +515,55 @@ class C15(object):
                     if nl != res["nlabel"] or (np.array(lab2) != res["labels"]).any():
                         viol = V("native-differs", "compiled find_ND_labels at %d numba threads differs from the simulated source" % nt)
                         break
+        if viol is None and desc.get("native_big"):
+            # conformance of the compiled code at the scale the statement speaks of (tens of thousands of 2D peaks, 32 bit
+            # index arrays as the scan files hold them), in a forked child; reference: union-find
+            nb = desc["native_big"]
+            gbig = np.random.default_rng(nb["seed"])
+            N = nb["n"]
+            src = gbig.integers(0, N, nb["edges"])
+            dst = np.minimum(N - 1, src + gbig.integers(0, 4, nb["edges"]))
+            bi, bj = src.astype(nb["dtype"]), dst.astype(nb["dtype"])
+
+            def big():
+                self.numba.set_num_threads(min(4, self.numba.config.NUMBA_NUM_THREADS))
+                with contextlib.redirect_stdout(io.StringIO()):
+                    nl, lab2 = props.find_ND_labels(bi, bj, N, verbose=0)
+                wantb, ncb = components(N, src, dst)
+                lab2 = np.asarray(lab2)
+                ok = int(nl) == ncb and lab2.min() == 0 and lab2.max() == ncb - 1
+                if ok:
+                    # same partition: the map (reference component -> label) must be a bijection
+                    pairs = np.unique(np.stack([np.asarray(wantb), lab2]), axis=1)
+                    ok = pairs.shape[1] == ncb
+                return {"ok": bool(ok), "nl": int(nl), "nc": int(ncb)}
+            r_, w_ = os.pipe()
+            pid = os.fork()
+            if pid == 0:
+                try:
+                    os.close(r_)
+                    import json as _json
+                    os.write(w_, _json.dumps(big()).encode())
+                finally:
+                    os._exit(0)
+            os.close(w_)
+            buf = b""
+            while True:
+                c_ = os.read(r_, 1 << 16)
+                if not c_:
+                    break
+                buf += c_
+            os.close(r_)
+            _, status = os.waitpid(pid, 0)
+            native_checked += 1
+            if not buf:
+                viol = V("native-crash", "the compiled find_ND_labels died (status %s) on a graph of %d peaks with %s indices" % (status, N, nb["dtype"]))
+            else:
+                import json as _json
+                gb_ = _json.loads(buf.decode())
+                if not gb_["ok"]:
+                    viol = V("native-differs", "compiled find_ND_labels on %d peaks with %s index arrays: %d labels, the graph has %d "
+                                               "components (or another partition)" % (N, nb["dtype"], gb_["nl"], gb_["nc"]))
         real_edges = any(a != b for a, b in E)
         meas = {"steps": sched.steps, "switches": sched.switches, "sweeps": sweeps, "threads_T": {desc["T"]: 1},
                 "strategy": {desc["strategy"]: 1}, "graph_kind": {desc["kind"]: 1}, "chunking": {desc["chunking"]: 1},
